@@ -134,6 +134,8 @@ def _settings(st, kind):
         return st.FracLaplSettings([0.0, 0.5, 1.0], 3, 1, [(-1, 0), (0, 0)]), "nlof"
     if kind == "fl_d":
         return st.FracLaplSettings([0.0, 0.5, 1.0], 2, 1, [(0, 0)], nd1=2, ld_dots=[(1, 1), (-1, 0)], ndd=2), "nlof"
+    if kind == "fl_d3":     # more l=1 contractions than l=1 vectors (len(l1_dots) != nk1), then derivative contractions
+        return st.FracLaplSettings([-0.5, 0.5, 1.0], 2, 2, [(0, 0), (0, 1), (-1, 1)], nd1=2, ld_dots=[(0, 1), (-1, 0), (1, 1)], ndd=1), "nlof"
     if kind == "fl_d2":
         return st.FracLaplSettings([0.5, 1.0], 1, 0, [], nd1=1, ld_dots=[(0, 0)], ndd=1), "nlof"
     if kind == "sadm":
@@ -151,7 +153,7 @@ def _settings(st, kind):
     raise ValueError(kind)
 
 
-KINDS = ["vj_tau0", "vi_tau0", "vj_gga_tau0", "vj_expnt_tau0", "vj", "vj_expnt", "vj_gga", "vi", "vij", "vk", "fl", "fl_d", "fl_d2", "sadm", "sdmx", "sdmxg", "sdmx1", "sdmxg1", "sdmxfull"]
+KINDS = ["vj_tau0", "vi_tau0", "vj_gga_tau0", "vj_expnt_tau0", "vj", "vj_expnt", "vj_gga", "vi", "vij", "vk", "fl", "fl_d", "fl_d2", "fl_d3", "sadm", "sdmx", "sdmxg", "sdmx1", "sdmxg1", "sdmxfull"]
 
 
 def h_recommended(env, kind, slmode):
@@ -331,7 +333,7 @@ def tasks(tier):
     for kind in KINDS:
         for slmode in (("npa", "nst") if tier == "thorough" else ("npa",)):
             out.append(Task("recommended/%s/%s" % (kind, slmode), h_recommended, dict(kind=kind, slmode=slmode)))
-    for kind in ("fl", "fl_d", "fl_d2"):
+    for kind in ("fl", "fl_d", "fl_d2", "fl_d3"):
         out.append(Task("fraclapl_plan/%s" % kind, h_fraclapl_plan, dict(kind=kind)))
     for spec in list(DOC_KERNEL) + ["se_lapl"]:
         out.append(Task("kernel_power/%s" % spec, h_kernel_power, dict(spec=spec)))
